@@ -110,7 +110,11 @@ class ParseCache(typing.MutableMapping[ParseCacheKey, ParseCacheValue]):
         self._drop_stale()
         self.dict[key] = value
         if self.max_size and len(self.dict) > self.max_size:
-            self.dict.popitem(last=False)
+            try:
+                self.dict.popitem(last=False)
+            except KeyError:
+                # another thread emptied the dictionary between the test and the eviction.
+                pass
 
     def __delitem__(self, key: ParseCacheKey):
         self._drop_stale()
